@@ -223,19 +223,21 @@ def lu_requests(rng, count):
     ]
     for N, A in corpus:
         A = [[float(v) for v in r] for r in A]
-        reqs.append(("stdet", N, A))
+        reqs.append(("stdet", N, A, "row-exchange"))
         reqs.append(("stinv", N, A))
     for k in range(count):
         N = (3, 2, 1)[k % 3]
-        A = _rand_matrix(rng, NS[N], styles[(k // 3) % 4])
-        reqs.append(("stdet", N, A))
+        st = styles[(k // 3) % 4]
+        A = _rand_matrix(rng, NS[N], st)
+        reqs.append(("stdet", N, A, {"zero-diagonal": "row-exchange", "permuted-dominant": "row-exchange",
+                                     "dominant": "no-exchange", "random": "random"}[st]))
         reqs.append(("stinv", N, A))
     # singular: det = 0 exactly (a zero row), invert is not called
-    reqs.append(("stdet", 2, [[1., 2., 3., 4.], [0., 0., 0., 0.], [2., 1., 0., 1.], [1., 1., 1., 3.]]))
+    reqs.append(("stdet", 2, [[1., 2., 3., 4.], [0., 0., 0., 0.], [2., 1., 0., 1.], [1., 1., 1., 3.]], "singular"))
     return reqs
 
 
-def _line(op, N, data):
+def _line(op, N, data, *_):
     flat = data if op == "polar" else [v for r in data for v in r]
     return "%s %d %s" % (op, N, " ".join("%.17g" % v for v in flat))
 
@@ -289,7 +291,8 @@ def run_numeric(ck, binary, rng):
         report("numeric:harness", "the double precision harness failed (exit %s, %d answers for %d requests)"
                % (p.returncode, len(lines), len(reqs)), {"stderr": p.stderr[-2000:]})
         return viol, stats
-    for (op, N, data), line in zip(reqs, lines):
+    for req, line in zip(reqs, lines):
+        op, N, data = req[:3]
         f = line.split()
         stats[op] += 1
         if len(f) < 3 or f[0] != op or f[2] == "exception":
@@ -325,10 +328,17 @@ def run_numeric(ck, binary, rng):
                 scale *= math.sqrt(sum(v * v for v in r)) or 1.0
             err = abs(float(Fr(ans[0]) - exact)) / scale
             stats["max_det_relative_error"] = max(stats["max_det_relative_error"], err if err < 1e-3 else 0.0)
-            if any(abs(data[i][i]) <= 0.1 * max(abs(data[j][i]) for j in range(i, len(data))) for i in range(1)):
+            cls = req[3]
+            if cls == "row-exchange":
                 stats["stdet_with_row_exchange_expected"] += 1
             if err > TOL_DET:
-                report("ST2toST2Concept.ixx:det:N%d" % N,
+                # key: dimension + class of the input (does the LU need a row exchange?); a result of the right
+                # magnitude and the wrong sign is a class of its own
+                if exact != 0 and abs(abs(float(Fr(ans[0]))) - abs(float(exact))) / scale <= TOL_DET:
+                    cls = "sign"
+                if N == 1:
+                    cls = "closed-form"
+                report("ST2toST2Concept.ixx:det:N%d:%s" % (N, cls),
                        "det(st2tost2<%d>) = %.17g but the determinant of the stored matrix is %.17g"
                        % (N, ans[0], float(exact)),
                        {"N": N, "A_stored_rows": data, "det_returned": ans[0], "det_exact": float(exact),
